@@ -300,7 +300,13 @@ def verify(contract, all_contracts=(), timeout_ms=10000, mutate=None, negate_pos
             eng.lemmas = {l.name: l for l in contract.lemmas}
             eng.cur_fn = contract.qualname
             cx = Cx(eng, menv, owner)
-            args = contract.setup(cx) if contract.setup else {}
+            try:
+                args = contract.setup(cx) if contract.setup else {}
+            except (EngineError, PathEnd):
+                raise
+            except Exception as ex:
+                # the contract's own extraction of constants / anchors from the source did not find the expected shape
+                raise EngineError('contract setup: %s: %s' % (type(ex).__name__, ex))
             eng.inputs = dict(args)
             eng.inputs.update(cx.extra_inputs)
             spec_globals = Env(menv, dict(contract.spec_env))
